@@ -60,6 +60,14 @@ def check_w1(chk, m):
     for k in keys:
         kid = ",".join("%s=%s" % (g, "T" if t else "F") for g, t in k) or "<unconditional>"
         if k not in E or k not in D:
+            side = E if k in E else D
+            raw = ge if k in E else gd
+            unrec = [g for gs in raw for g, t in gs if g.startswith("?") and simplify(gs) == k]
+            if unrec:
+                chk.unknown("W1.walk-agreement", "case " + kid, "the %s branches on a condition that is not recognised (%s): which of the "
+                            "other function's cases this one corresponds to is not decided" % ("encoder" if k in E else "decoder", unrec[0][1:60]),
+                            side[k][0][1].ret_inst.loc)
+                continue
             chk.ob("W1.walk-agreement", "case " + kid, False,
                    "guarded case exists only in the %s: the two functions branch on different conditions" %
                    ("encoder" if k in E else "decoder"), (E.get(k) or D.get(k))[0][1].ret_inst.loc,
@@ -645,7 +653,7 @@ def check_w5(chk, m, states):
                         try:
                             val = bool(eval_concrete(c, env)) == bool(taken)
                         except NoValue:
-                            unknown = "condition %s not constant for this format" % fmt(c)[:60]
+                            unknown = "NOTEVAL condition %s is not evaluable from the members init sets" % fmt(c)[:60]
                 if unknown:
                     break
                 if not val:
@@ -657,6 +665,13 @@ def check_w5(chk, m, states):
                 verdicts.append(("taken", p.ret, p))
         stale = [v for v in verdicts if v[0] == "stale"]
         taken = [v for v in verdicts if v[0] == "taken"]
+        # a condition the evaluation cannot follow (a tag compared word-wise or through a table, a helper) is not evidence of stale
+        # memory: inconclusive.  So is a verdict that is not a constant (a branch-free conditional over the size members)
+        if any(v[1].startswith("NOTEVAL") for v in stale) or (len(taken) == 1 and not stale and strip_casts(taken[0][1])[0] != "c"):
+            why = [v[1][8:] for v in stale if v[1].startswith("NOTEVAL")]
+            chk.unknown("W5.validate-accepts-init", "format %s" % name, why[0] if why else
+                        "validate's result %s is not a constant for this header" % fmt(taken[0][1])[:60], fv.loc)
+            continue
         if stale and not any(t[1] == ("c", 32, 0) for t in taken):
             chk.ob("W5.validate-accepts-init", "format %s" % name, False,
                    "rf_wavheader_validate's verdict on a freshly initialised header depends on stale memory: %s" % stale[0][1],
@@ -759,6 +774,7 @@ def run(chk):
         "byte-exact re-encoding of every accepted byte string is decided only up to W1 (same walk, same guards)",
     ]
     m = wav.load()
+    wav.check_tag_tests_recognised(m)
     chk.note_unit(m)
     E, D = check_w1(chk, m)
     fn, wh, fmt_arg, states, table = init_states(chk, m)
